@@ -8,7 +8,7 @@ from gen.probes import docx, p, r, tbl, tr, tc, NS
 
 RULE = ('regular tables: uniformly random rectangular tilings of n x m grids (n, m <= 5) rendered with gridSpan and vMerge restart / continue '
         '(continuation written bare or as w:val="continue", chosen per cell), 1-2 paragraphs per cell, placed in the body (first, last, between '
-        'paragraphs), in a header, in a footnote, or inside a cell of an enclosing table; all four option settings; checker: the extracted '
+        'paragraphs), in a header, in a footnote, inside a cell of an enclosing table, or in a text box anchored in a paragraph; all four option settings; checker: the extracted '
         'table equals the reference grid gridOf(dup) position by position; positions not covered by a merge equal under both settings; '
         'non-trivial = tiling with at least one merged rectangle and two rows; distinct by (n, m, tiling, spelling, placement); thorough: '
         'ALL tilings of all grids with n*m <= 12')
@@ -61,6 +61,9 @@ def build(rng, n, m, rects, place):
     elif place == 'body-last': body = before + xml
     elif place == 'body-mid': body = before + xml + after
     elif place == 'nested': body = before + tbl(tr(tc(p(r('«9003»outer')), xml, p(r('«9004»outer-after'))), tc(p(r('«9005»o2'))))) + after
+    elif place == 'textbox':
+        # in a text box anchored in a run of a paragraph: the enclosing paragraph stays open while the table is collected
+        body = before + p(r('«9008»anchor '), '<w:r><w:pict><v:shape><v:textbox><w:txbxContent>' + xml + p(r('«9009»in the box')) + '</w:txbxContent></v:textbox></v:shape></w:pict></w:r>', r('«9010» tail')) + after
     elif place == 'header': body = before; parts['header1.xml'] = ('header', '<w:hdr NS>' + xml + '</w:hdr>')
     elif place == 'footnote':
         body = before
@@ -118,7 +121,7 @@ def one(ctx, data, expected, attr, meta):
 STRIP_H = False      # replay: the expectation is rebuilt from the archive without paragraph styles
 
 
-PLACES = ['body-first', 'body-last', 'body-mid', 'nested', 'header', 'footnote']
+PLACES = ['body-first', 'body-last', 'body-mid', 'nested', 'header', 'footnote', 'textbox']
 
 
 def case(ctx, rng, n, m, rects, place):
